@@ -85,6 +85,16 @@ CHECKS = {
         "DESIGN.md §4 C02",
         "A",
     ),
+    "C05": (
+        "model_checking",
+        "bounded-exhaustive enumeration of (per-path outcome vector x solver reply vector x --early-exit x --cache-solver x completion order x reply-delivery order) for a generated k-path test, each executed by the real run_contract / _main with a scripted solver and compared with a reference verdict function",
+        "A generated test with k <= 2 (thorough 3) guarded paths plus a default path; each path ends in success, revert, Panic(1), the DSTest fail flag or an unsupported opcode (stuck). The reply to each path's query is scripted from {sat + model, sat + model interpreting an abstraction followed by the refined query's reply, unsat (with an unsat core when the "
+        "query names its assertions), unknown, time limit expired, empty output, garbage, non-zero exit with sat, crash} (quick: 7 of them), with and without --early-exit and --cache-solver. Concurrent queries are completed in every order (--solver-threads = number of queries, delayed replies), and for tests with a stuck path the two orders `replies delivered "
+        "before / after the main thread confirms the stuck path` are both taken. The TestResult exit code must equal the reference verdict FAIL > ERROR > TIMEOUT > ERROR(stuck) > ERROR(all reverted) > PASS computed from the collection of outcomes alone; through _main (stub forge) the process exit code is non-zero iff the selected test did not pass.",
+        "Trusted: the reference verdict function (DESIGN B.3) and the scripted solver in props/c05_verdict.py (seam: halmos.solve.PopenFuture replaced in the harness process; the subprocess layer itself is C17's subject). Completion orders are produced with real solver threads and delays, not with a controlled scheduler.",
+        "DESIGN.md §4 C05",
+        "A",
+    ),
     "C06": (
         "exploration",
         "exhaustive sweep: every one-instruction program (opcode x operand representation x boundary operands) through the real SEVM.run compared with a reference EVM, plus complete 8-bit/4-bit operand grids through the HalmosBitVec methods",
